@@ -27,7 +27,12 @@ fn main() {
             let mut ctx = Ctx::new(&prop, tier, seed, threads, known);
             ctx.strict = args.iter().any(|a| a == "--strict");
             ctx.only = arg(&args, "--only");
-            ctx.scale = arg(&args, "--scale").and_then(|s| s.parse().ok()).unwrap_or(1.0);
+            ctx.scale = arg(&args, "--scale").and_then(|s| s.parse().ok()).unwrap_or_else(|| {
+                // properties whose run() does not size itself for the slower overflow-checked build:
+                // random searches run at 40 % there (enumerations are unaffected)
+                let self_sizing = ["C01", "C02", "C03", "C04", "C08", "C11", "C12", "C13", "C15", "C16", "C17"];
+                if profile() == "checked" && !self_sizing.contains(&prop.as_str()) { 0.4 } else { 1.0 }
+            });
             let ctx = std::sync::Arc::new(ctx);
             // watchdog: no progress for a long time => exit 2 (inconclusive, never a violation)
             {
